@@ -38,6 +38,14 @@ def run(c):
     thorough = c.tier == 'thorough'
     n = 1500 if thorough else 300
     r = frcommon.Runner(c)
+    # witnesses of repaired findings run first: a regression is reported again
+    import json
+    for e in c.known_entries('fixed'):
+        w = json.load(open(os.path.join(common.VERIF, e['witness'])))
+        real, model, same = frcommon.replay_case(c, w['case'])
+        c.coverage.setdefault('fixed_witnesses', {})[e['id']] = {'agrees_with_reference': same}
+        if not same:
+            c.violation(dict(w, property='C12', kind='a repaired finding is back: ' + e['line']))
     r.patch(rnd, 2 * n)
     r.alias(rnd, n)
     r.inherit(rnd, n)
